@@ -3356,7 +3356,112 @@ def k_lbl(u):
     b.close()
 
 
-KINDS = ["ctl", "rng", "masg", "fun", "clo", "mval", "emb", "dyn", "gen", "cpy", "eq", "tsw", "pan", "ptr", "str", "dfr", "arr", "fnv", "cst", "lbl"]
+# =================================================================================================
+# zlp: every execution of a variable declaration creates a fresh zero value (locals declared in loop bodies,
+# in goto re-entered regions and in loops inside closures, written only partially, read in a later iteration)
+
+def k_zlp(u):
+    r = u.r
+    u.feat("zero-per-iteration")
+    b = u.body
+    T = u.nm("Acc")
+    u.lib("type %s struct {\n\tSum, Cnt int\n\tTag string\n\tCells [3][2]int\n}" % T)
+    run_open(u)
+    n = r.randint(3, 6)
+    k = r.randint(3, 5)
+    # array local in a loop
+    b.open("for i := 0; i < %d; i++ {" % n)
+    b("var h [%d]int" % k)
+    b.open("if i%%%d != %d {" % (r.randint(2, 3), r.randint(0, 1)))
+    b("h[i%%%d] += i + %d" % (k, r.randint(1, 9)))
+    b.close()
+    b(u.tr("i", *["h[%d]" % j for j in range(min(k, 4))]))
+    b.close()
+    # struct local, partially written
+    b.open("for i := range %d {" % n)
+    b("var a §%s" % T)
+    b.open("switch i % 3 {")
+    b.mid("case 0:")
+    b("a.Sum = i + %d" % r.randint(10, 99))
+    b('a.Tag = %s' % sc(u))
+    b.mid("case 1:")
+    b("a.Cnt = i")
+    b("a.Cells[i%%3][1] = %d" % r.randint(1, 50))
+    b.close()
+    b(u.tr("i", "a.Sum", "a.Cnt", "len(a.Tag)", "a.Cells[1][1]", "a.Cells[0][0]"))
+    b(u.ts("a.Tag"))
+    b.close()
+    # goto re-entered region
+    gi = u.lv("gi")
+    b("%s := 0" % gi)
+    b("Again:")
+    b.open("{")
+    b("var g [2]§%s" % T)
+    b.open("if %s%%2 == 0 {" % gi)
+    b("g[%s%%2].Sum = %s + %d" % (gi, gi, r.randint(100, 200)))
+    b.close()
+    b(u.tr(gi, "g[0].Sum", "g[1].Sum", "g[0].Cnt"))
+    b("%s++" % gi)
+    b.open("if %s < %d {" % (gi, r.randint(3, 5)))
+    b("goto Again")
+    b.close()
+    b.close()
+    # loop inside a closure, with a closure-captured counter
+    tot = u.lv("tot")
+    b("%s := 0" % tot)
+    b.open("func() {")
+    b.open("for j := 0; j < %d; j++ {" % n)
+    b("var w [3]int")
+    b.open("if j%2 == 1 {")
+    b("w[j%3] = j*7 + 1")
+    b.close()
+    b("%s += w[0] + w[1]*10 + w[2]*100" % tot)
+    b(u.tr("j", "w[0]", "w[1]", "w[2]", tot))
+    b.close()
+    b.close("}()")
+    b.close()
+
+
+# =================================================================================================
+# ncl: closures nested two levels deep inside same-named methods of different receiver types (link names of
+# nested closures must keep the receiver of the enclosing method)
+
+def k_ncl(u):
+    r = u.r
+    u.feat("nested-closure-same-method-name")
+    A, B, C = u.nm("Ta"), u.nm("Tb"), u.nm("Tc")
+    ka, kb, kc = r.randint(2, 9), r.randint(11, 19), r.randint(21, 29)
+    for T, kk, ptr in ((A, ka, False), (B, kb, True), (C, kc, False)):
+        rc = "*" + T if ptr else T
+        u.lib("type %s struct{ V int }" % T)
+        u.lib.open("func (t %s) Each(n int) int {" % rc)
+        u.lib("s := 0")
+        u.lib.open("func() {")
+        u.lib.open("for i := 0; i < n; i++ {")
+        u.lib.open("func() {")
+        u.lib("s += t.V*%d + i" % kk)
+        u.lib.close("}()")
+        u.lib.close()
+        u.lib.close("}()")
+        u.lib("return s")
+        u.lib.close()
+        u.lib.open("func (t %s) Twice() func() func() int {" % rc)
+        u.lib.open("return func() func() int {")
+        u.lib("return func() int { return t.V * %d }" % (kk + 100))
+        u.lib.close()
+        u.lib.close()
+    b = u.body
+    run_open(u)
+    order = [(A, False), (B, True), (C, False)]
+    r.shuffle(order)
+    for T, ptr in order:
+        x = u.lv("x")
+        b("%s := %s§%s{V: %d}" % (x, "&" if ptr else "", T, r.randint(1, 9)))
+        b(u.tr("%s.Each(%d)" % (x, r.randint(1, 4)), "%s.Twice()()()" % x))
+    b.close()
+
+
+KINDS = ["ctl", "rng", "masg", "fun", "clo", "mval", "emb", "dyn", "gen", "cpy", "eq", "tsw", "pan", "ptr", "str", "dfr", "arr", "fnv", "cst", "lbl", "zlp", "ncl"]
 # relative weights: control flow / closures / dispatch get more units than the light kinds
 WEIGHT = {"ctl": 3, "rng": 2, "clo": 2, "gen": 2, "dyn": 2, "masg": 2, "fun": 2, "mval": 2, "emb": 2, "cpy": 2, "eq": 2}
 BUILDERS = {}
